@@ -49,3 +49,58 @@ def forall_idx(n, f, tag='q'):
 def exists_idx(n, f, tag='x'):
     j = z3.Int('%s!j' % tag)
     return z3.Exists([j], z3.And(j >= 0, j < n, f(j)))
+
+
+def mapping(eng, st, v):
+    """v is usable as a mapping by the code: a dict value, a dict object or an abstract MutableMapping"""
+    return z3.Or(eng.is_dictlike(st, v),
+                 z3.And(V.is_obj(v), eng.isinst_ref(V.ref(v), 'collections.abc.MutableMapping'),
+                        V.is_dict(z3.Select(st.H('$val'), V.ref(v)))))
+
+
+def rules_store_pre(eng, st, R):
+    """R is a dict-like object whose values are checks and whose default rule is None, a string or a check"""
+    m = V.m(z3.Select(st.H('$val'), V.ref(R)))
+    k = z3.String('rs!k')
+    dr = z3.Select(st.H('default_rule'), V.ref(R))
+    return [('rules-is-a-dict-object', z3.And(V.is_obj(R), eng.isinst_ref(V.ref(R), 'dict'),
+                                             V.is_dict(z3.Select(st.H('$val'), V.ref(R))))),
+            ('every-stored-rule-is-a-check',
+             qforall([k], z3.Implies(z3.Select(m, k) != ABSENT, eng.isinst(z3.Select(m, k), 'BaseCheck')),
+                     patterns=[z3.Select(m, k)])),
+            ('default-rule-is-None-a-string-or-a-check',
+             z3.Implies(eng.isinst(R, 'Rules'),
+                        z3.Or(dr == NONE, V.is_str(dr), eng.isinst(dr, 'BaseCheck'))))]
+
+
+def json_axioms(eng, v):
+    """closure of jsonlike at v: no objects, children are jsonlike (instantiated at the terms in play)"""
+    from specs.strings import jsonlike
+    x = z3.Const('jx!v', V)
+    k = z3.String('jx!k')
+    j = z3.Int('jx!j')
+    return [qforall([x], z3.Implies(jsonlike(x), z3.And(z3.Not(V.is_obj(x)), z3.Not(V.is_absent(x)),
+                                                        z3.Not(V.is_tuple(x)), z3.Not(V.is_sset(x)))),
+                    patterns=[jsonlike(x)]),
+            qforall([x, k], z3.Implies(z3.And(jsonlike(x), V.is_dict(x), z3.Select(V.m(x), k) != ABSENT),
+                                       jsonlike(z3.Select(V.m(x), k))),
+                    patterns=[z3.MultiPattern(jsonlike(x), z3.Select(V.m(x), k))]),
+            qforall([x, j], z3.Implies(z3.And(jsonlike(x), V.is_list(x), j >= 0, j < z3.Length(V.items(x))),
+                                       jsonlike(V.items(x)[j])))]
+
+
+def walk_unfold(eng, v, segs, m):
+    """one-step unfolding of walk at (v, segs, m)"""
+    from specs.strings import walk
+    from pyvc.values import pystr
+    n = z3.Length(segs)
+    k = V.s(segs[0])
+    rest = z3.SubSeq(segs, 1, n - 1)
+    child = z3.Select(V.m(v), k)
+    j = z3.Int('wu!j')
+    items = V.items(child)
+    anyel = z3.Exists([j], z3.And(j >= 0, j < z3.Length(items), walk(items[j], rest, m)))
+    step = z3.If(z3.Or(z3.Not(V.is_dict(v)), child == ABSENT), False,
+                 z3.If(V.is_list(child), anyel, walk(child, rest, m)))
+    base = (m == z3.If(V.is_str(v), V.s(v), pystr(v)))
+    return walk(v, segs, m) == z3.If(n == 0, base, step)
